@@ -14,7 +14,7 @@ package kvql
 //@ iface (e Expression) ExecuteBatch(chunk []KVPair, ctx *ExecuteCtx) (ret []any, err error)
 //@   requires e != nil
 //@   assigns ctx.Hit, mapof(ctx.FieldCaches), mapof(ctx.FieldChunkKeyCaches), mapof(ctx.FieldChunkCaches)
-//@   ensures[C03] same: err == nil ==> rowsOf(e, chunk, ret)
+//@   ensures[C03, C10] same: err == nil ==> rowsOf(e, chunk, ret)
 //@   ensures own: err == nil ==> isnil(ret) || fresh(ret)
 //
 // Literals, key and value.
@@ -60,6 +60,28 @@ package kvql
 //@     invariant forall j Int :: 0 <= j && j < len(chunk) ==> evalok(e.Right, ck(chunk, j), cv(chunk, j))
 //@     invariant forall j Int :: i <= j && j < len(chunk) ==> right[j] == evalv(e.Right, ck(chunk, j), cv(chunk, j))
 //@     invariant forall j Int :: 0 <= j && j < i ==> isbool(evalv(e.Right, ck(chunk, j), cv(chunk, j))) && right[j] == ABool(!bval(evalv(e.Right, ck(chunk, j), cv(chunk, j))))
+//
+// Alias references in batch mode. The per-chunk cache hands out and keeps slices: what the
+// reference returns must be the caller's own (callers overwrite their operand columns in place),
+// so a cached column is copied on the way in and on the way out. That a cache hit holds the
+// alias's values on the *current* chunk (A-CHUNKCACHE: entries are keyed by alias name and first
+// key of the chunk, and dropped by AdjustChunkCache when a scan batch has been filtered) is not
+// yet proved: the interface clause `same` is an assumption for this implementation.
+//@ func (c *ExecuteCtx) GetChunkFieldResult(name string, key []byte) (chunk []any, have bool)
+//@   props C03 C05
+//@   requires c != nil
+//@   assigns nothing
+//@   ensures[C03, C05] off: have ==> c.EnableCache
+//@ func (c *ExecuteCtx) SetChunkFieldResult(name string, key []byte, chunk []any)
+//@   trusted thin contract (frame only: the slice is kept by the cache)
+//@   requires c != nil
+//@   assigns mapof(c.FieldChunkKeyCaches), mapof(c.FieldChunkCaches)
+//@ func (e *FieldReferenceExpr) ExecuteBatch(chunk []KVPair, ctx *ExecuteCtx) (ret []any, err error)
+//@   props C03 C05
+//@   requires e != nil && e.Name != nil && e.FieldExpr != nil && len(chunk) > 0
+//@   assigns ctx.Hit, mapof(ctx.FieldCaches), mapof(ctx.FieldChunkKeyCaches), mapof(ctx.FieldChunkCaches)
+//@   ensures[C03, C05] own: err == nil ==> isnil(ret) || fresh(ret)
+//@   ensures[C03, C05] miss: err == nil && (ctx == nil || !ctx.EnableCache) ==> rowsOf(e.FieldExpr, chunk, ret)
 //
 // Binary operators: the operands are evaluated for the whole chunk, then combined row by row.
 //@ define lokI(e *BinaryOpExpr, c []KVPair, i Int) Bool = evalok(e.Left, ck(c, i), cv(c, i))
